@@ -17,79 +17,6 @@ theorem mem_assign {next : Nat} : ∀ {reqs : List Req} {r : Req} {h : Nat},
       simp only [List.mem_cons, List.length_cons]
       exact ⟨Or.inr this.1, by omega, by omega⟩
 
-theorem assign_handle_inj {next : Nat} : ∀ {reqs : List Req} {r q : Req} {h : Nat},
-    distinctParams reqs = true → (r, h) ∈ assign next reqs → (q, h) ∈ assign next reqs → r = q
-  | [], _, _, _, _, hm, _ => by simp [assign] at hm
-  | r0 :: rs, r, q, h, hd, hr, hq => by
-    simp only [assign, List.mem_cons, Prod.mk.injEq] at hr hq
-    simp only [distinctParams, Bool.and_eq_true] at hd
-    rcases hr with ⟨rfl, rfl⟩ | hr <;> rcases hq with ⟨rfl, hh⟩ | hq
-    · rfl
-    · have := (mem_assign hq).2.1; omega
-    · have := (mem_assign hr).2.1; omega
-    · exact assign_handle_inj hd.2 hr hq
-
-/-- with distinct parameter objects, two entries with the same object are the same entry -/
-theorem assign_param_unique {next : Nat} : ∀ {reqs : List Req} {r q : Req} {h g p : Nat},
-    distinctParams reqs = true → (r, h) ∈ assign next reqs → (q, g) ∈ assign next reqs →
-    r.params = some p → q.params = some p → h = g
-  | [], _, _, _, _, _, _, hm, _, _, _ => by simp [assign] at hm
-  | r0 :: rs, r, q, h, g, p, hd, hr, hq, hrp, hqp => by
-    simp only [assign, List.mem_cons, Prod.mk.injEq] at hr hq
-    simp only [distinctParams, Bool.and_eq_true] at hd
-    rcases hr with ⟨rfl, rfl⟩ | hr <;> rcases hq with ⟨rfl, rfl⟩ | hq
-    · rfl
-    · have hq' := (mem_assign hq).1
-      have := hd.1
-      simp only [hrp, List.all_eq_true, bne_iff_ne, ne_eq] at this
-      exact absurd hqp (this q hq')
-    · have hr' := (mem_assign hr).1
-      have := hd.1
-      simp only [hqp, List.all_eq_true, bne_iff_ne, ne_eq] at this
-      exact absurd hrp (this r hr')
-    · exact assign_param_unique hd.2 hr hq hrp hqp
-
-theorem lastFor_none {p : Nat} : ∀ {l : List (Req × Nat)},
-    (∀ q g, (q, g) ∈ l → q.params ≠ some p) → lastFor p l = none
-  | [], _ => rfl
-  | (r, h) :: rest, hn => by
-    have h1 : lastFor p rest = none := lastFor_none fun q g hm => hn q g (List.mem_cons_of_mem _ hm)
-    have h2 : r.params ≠ some p := hn r h (by simp)
-    simp [lastFor, h1, h2]
-
-theorem lastFor_unique {p h : Nat} : ∀ {l : List (Req × Nat)} {r : Req},
-    (r, h) ∈ l → r.params = some p → (∀ q g, (q, g) ∈ l → q.params = some p → g = h) →
-    lastFor p l = some h
-  | [], _, hm, _, _ => by simp at hm
-  | (r0, h0) :: rest, r, hm, hp, hu => by
-    by_cases hex : ∃ q g, (q, g) ∈ rest ∧ q.params = some p
-    · obtain ⟨q, g, hq, hqp⟩ := hex
-      have hg : g = h := hu q g (List.mem_cons_of_mem _ hq) hqp
-      subst hg
-      have := lastFor_unique hq hqp fun q' g' hm' hp' => hu q' g' (List.mem_cons_of_mem _ hm') hp'
-      simp [lastFor, this]
-    · have hnone : lastFor p rest = none :=
-        lastFor_none fun q g hq hqp => hex ⟨q, g, hq, hqp⟩
-      have hhead : (r, h) = (r0, h0) := by
-        simp only [List.mem_cons] at hm
-        rcases hm with hm | hm
-        · exact hm
-        · exact absurd ⟨r, h, hm, hp⟩ hex
-      simp only [Prod.mk.injEq] at hhead
-      obtain ⟨rfl, rfl⟩ := hhead
-      simp [lastFor, hnone, hp]
-
-/-- without shared parameter objects the handle on the wire is the request's own -/
-theorem wire_own {next : Nat} {reqs : List Req} {r : Req} {h : Nat}
-    (hd : distinctParams reqs = true) (hm : (r, h) ∈ assign next reqs) :
-    wire (assign next reqs) r h = h := by
-  unfold wire
-  cases hp : r.params with
-  | none => rfl
-  | some p =>
-    have := lastFor_unique hm hp fun q g hq hqp => assign_param_unique hd hq hm hqp hp
-    simp [this]
-
 theorem addHandles_other : ∀ (l : List (Req × Nat)) (m : Nat → Option Node) (k : Nat),
     (∀ r h, (r, h) ∈ l → h ≠ k) → addHandles m l k = m k
   | [], _, _, _ => rfl
@@ -100,12 +27,11 @@ theorem addHandles_other : ∀ (l : List (Req × Nat)) (m : Nat → Option Node)
     simp [setKey, Ne.symm this]
 
 theorem addHandles_mem {next : Nat} : ∀ (reqs : List Req) (m : Nat → Option Node) (r : Req) (h : Nat),
-    distinctParams reqs = true → (r, h) ∈ assign next reqs →
+    (r, h) ∈ assign next reqs →
     addHandles m (assign next reqs) h = some r.node
-  | [], _, _, _, _, hm => by simp [assign] at hm
-  | r0 :: rs, m, r, h, hd, hm => by
+  | [], _, _, _, hm => by simp [assign] at hm
+  | r0 :: rs, m, r, h, hm => by
     simp only [assign, List.mem_cons, Prod.mk.injEq] at hm
-    simp only [distinctParams, Bool.and_eq_true] at hd
     simp only [assign, addHandles]
     rcases hm with ⟨rfl, rfl⟩ | hm
     · rw [addHandles_other]
@@ -113,7 +39,7 @@ theorem addHandles_mem {next : Nat} : ∀ (reqs : List Req) (m : Nat → Option 
       · intro r' h' hm'
         have := (mem_assign hm').2.1
         omega
-    · exact addHandles_mem rs _ r h hd.2 hm
+    · exact addHandles_mem rs _ r h hm
 
 /-- the invariant behind `C28_node` -/
 def InvA (s : St) : Prop :=
@@ -126,14 +52,13 @@ theorem invA_empty : InvA St.empty := by
 /-- what the result loop preserves: `K` says every handle of this call is either still
     mapped to its own node or deleted -/
 theorem addResults_inv (all : List (Req × Nat)) (bound : Nat)
-    (hw : ∀ r h, (r, h) ∈ all → wire all r h = h)
     (hb : ∀ r h, (r, h) ∈ all → h ≤ bound) :
     ∀ (l : List (Req × Nat)) (oks : List Bool) (s : St),
       (∀ r h, (r, h) ∈ l → (r, h) ∈ all) →
       s.next = bound →
       (∀ r h, (r, h) ∈ all → s.handles h = some r.node ∨ s.handles h = none) →
       InvA s →
-      InvA (addResults all l oks s)
+      InvA (addResults l oks s)
   | [], _, s, _, _, _, hi => by simpa [addResults] using hi
   | (r, h) :: rest, [], s, _, _, _, hi => by simpa [addResults] using hi
   | (r, h) :: rest, ok :: oks, s, hsub, hn, hk, hi => by
@@ -143,20 +68,19 @@ theorem addResults_inv (all : List (Req × Nat)) (bound : Nat)
     simp only [addResults]
     split
     · -- Good: the item exists on the server with its own handle
-      apply addResults_inv all bound hw hb rest oks _ hsub' (by simpa using hn) (by simpa using hk)
+      apply addResults_inv all bound hb rest oks _ hsub' (by simpa using hn) (by simpa using hk)
       refine ⟨hi.1, ?_⟩
       intro it hit
       simp only [List.mem_append, List.mem_singleton] at hit
       rcases hit with hit | rfl
       · exact hi.2 it hit
-      · simp only [hw r h hmem]
-        refine ⟨by rw [hn]; exact hb r h hmem, ?_⟩
+      · refine ⟨by rw [hn]; exact hb r h hmem, ?_⟩
         intro n hs
         rcases hk r h hmem with h1 | h1
         · rw [h1] at hs; simp at hs; exact hs.symm
         · rw [h1] at hs; simp at hs
     · -- failed: the handle is deleted
-      apply addResults_inv all bound hw hb rest oks _ hsub' (by simpa using hn)
+      apply addResults_inv all bound hb rest oks _ hsub' (by simpa using hn)
       · intro r' h' hm'
         simp only [setKey]
         split
@@ -176,13 +100,13 @@ theorem addResults_inv (all : List (Req × Nat)) (bound : Nat)
           · simp at hs
           · exact (hi.2 it hit).2 n hs
 
-theorem invA_add {s : St} {reqs : List Req} {oks : List Bool} (hd : distinctParams reqs = true)
+theorem invA_add {s : St} {reqs : List Req} {oks : List Bool}
     (hi : InvA s) : InvA (add s reqs oks) := by
   unfold add
   apply addResults_inv (assign s.next reqs) (s.next + reqs.length)
-    (fun r h hm => wire_own hd hm) (fun r h hm => (mem_assign hm).2.2) _ oks _ (fun _ _ hm => hm) rfl
+    (fun r h hm => (mem_assign hm).2.2) _ oks _ (fun _ _ hm => hm) rfl
   · intro r h hm
-    exact Or.inl (addHandles_mem reqs s.handles r h hd hm)
+    exact Or.inl (addHandles_mem reqs s.handles r h hm)
   · refine ⟨?_, ?_⟩
     · intro k n hs
       simp only at hs ⊢
@@ -263,16 +187,13 @@ theorem invA_remove {s : St} {ids : List Nat} (hi : InvA s) : InvA (remove s ids
     exact h.1.2 it hit.1
   · exact h.1
 
-theorem invA_runOps : ∀ (ops : List Op) (s : St), (∀ o ∈ ops, o.guarded = true) → InvA s → InvA (runOps s ops)
-  | [], s, _, hi => hi
-  | o :: os, s, hg, hi => by
+theorem invA_runOps : ∀ (ops : List Op) (s : St), InvA s → InvA (runOps s ops)
+  | [], s, hi => hi
+  | o :: os, s, hi => by
     simp only [runOps]
-    apply invA_runOps os _ (fun o' ho' => hg o' (List.mem_cons_of_mem _ ho'))
-    have hgo := hg o (by simp)
+    apply invA_runOps os _
     cases o with
-    | add reqs oks =>
-      simp only [Op.guarded, Bool.and_eq_true] at hgo
-      exact invA_add hgo.1 hi
+    | add reqs oks => exact invA_add hi
     | addErr reqs => exact invA_addErr hi
     | remove ids => exact invA_remove hi
 
